@@ -4,7 +4,7 @@
     type V and both storage back-ends ([impl] = Go slice | C buffer). *)
 From Coq Require Import ZArith List Lia.
 From OW Require Import Arrays.IntOps Arrays.View Arrays.Ops Arrays.IndexProofs Arrays.AffineProofs
-  Arrays.ContigProofs Arrays.MemProofs Arrays.ApplyProofs.
+  Arrays.ContigProofs Arrays.MemProofs Arrays.ApplyProofs Arrays.Exec Arrays.HistoryProofs.
 Import ListNotations.
 Local Open Scope Z_scope.
 
@@ -86,6 +86,16 @@ Theorem C01_run_write_is_element_writes : forall (V : Type) (h : @heap V) c g rd
   apply h (mkArr c (GoImpl g)) loc dim stp vals = apply_loop h (mkArr c (GoImpl g)) loc dim ld stp 0 vals.
 Proof. exact (@apply_fast_eq_slow). Qed.
 Print Assumptions C01_run_write_is_element_writes.
+
+(** views are live for the whole history: an array id keeps denoting the same view, and its
+    storage is never resized or dropped, whatever operations (of any kind, through any view)
+    follow *)
+Theorem C01_views_stay_live : forall ops s s' id a,
+  exec_all s ops = Some s' -> arr_at s id = Some a -> arr_at s' id = Some a.
+Proof. exact history_keeps_arrays. Qed.
+Theorem C01_history_extends_heap : forall s o s' r, exec s o = Some (s', r) -> hext (sheap s) (sheap s').
+Proof. exact exec_extends_heap. Qed.
+Print Assumptions C01_history_extends_heap.
 
 (** non-vacuity: a stepped slice of a stepped slice of a 48-element array (the witness of
     the defect repaired by commit 690c6da) *)
